@@ -19,7 +19,14 @@ import (
 	"time"
 )
 
-const repoDir = "/repo"
+// repoDir: the repository under analysis. Registered commands always use /repo; SYMGO_REPO lets
+// background exploration runs (vp run --with-repo) work on a snapshot.
+var repoDir = func() string {
+	if d := os.Getenv("SYMGO_REPO"); d != "" {
+		return d
+	}
+	return "/repo"
+}()
 
 var verifDir = "/verif"
 
